@@ -93,7 +93,8 @@ def gen_event_opts(rng: random.Random, kinds: list[str]) -> dict[str, str]:
         if rng.random() < 0.5:
             ts = rng.choice([1, 10, 100, 1000, 90000, 48000, 7, 1_000_000, 44100])
             q[f"{k}__timescale"] = str(ts)
-        if rng.random() < 0.6:
+        if rng.random() < 0.6 or ts > 1000:
+            # (the default interval is a tick count: with a fine timescale it would mean thousands of events per segment)
             secs = rng.choice([0.1, 0.25, 0.4, 1, 1.5, 4, 7, 10, 40])
             q[f"{k}__interval"] = str(max(1, int(round(secs * ts))))
         elif ts < 10:
